@@ -162,6 +162,8 @@ def work(task):
     drv = Driver()
     try:
         for i in range(start, start + count):
+            if len(ev.violations) >= 30:
+                break       # verdict settled
             rnd = random.Random((seed << 32) ^ (i * 2654435761 & 0xffffffff) ^ 0xC15)
             g = G.Gen(rnd, G.Cfg(max_depth=depth, soft=0.03, scope_errors=0.01 if i % 5 == 0 else 0.0))
             pre = rand_prefix(rnd) if rnd.random() < 0.5 else None
